@@ -338,7 +338,10 @@ class HalfRankComponent(OutputWarper):
     )
 
     # Rank sort.
-    ranks = stats.rankdata(labels_arr, method='dense')  # nans ranked last.
+    # Rank the finite labels only: depending on its version, scipy ranks NaNs
+    # last or (nan_policy='propagate') makes every rank NaN.
+    ranks = np.full(labels_arr.shape, np.nan)
+    ranks[is_finite] = stats.rankdata(labels_arr[is_finite], method='dense')
     dedup_median_index = unique_labels.searchsorted(median, 'left')
     denominator = (
         dedup_median_index + (unique_labels[dedup_median_index] == median) * 0.5
